@@ -129,15 +129,16 @@ PROPERTIES = {
     },
     "C11": {
         "level": "exploration",
-        "classes": ["B2_DIGEST", "B2_INIT_STATUS", "B2_UPDATE_STATUS", "B2_FINAL_STATUS", "B2_ONESHOT_STATUS", "B2_ACCEPTED_INVALID", "B2_WRITE_ON_REJECT", "B2_OUTPUT_OVERRUN", "COMMITMENT_MISMATCH"] + CRASH,
+        "classes": ["B2_DIGEST", "B2_INIT_STATUS", "B2_UPDATE_STATUS", "B2_FINAL_STATUS", "B2_ONESHOT_STATUS", "B2_ACCEPTED_INVALID", "B2_WRITE_ON_REJECT", "B2_OUTPUT_OVERRUN", "COMMITMENT_MISMATCH", "TSAN_RACE"] + CRASH,
         "rule": "simulated stream reader: 1-4 concurrent blake2b states (outlen 1-64, optional key, message lengths biased to block boundaries) fed in seeded chunkings and interleavings, early finals, misuse after final, invalid-parameter calls, "
-                "single-call cross-check, commitment; oracle: BLAKE2b written from RFC 7693, operation by operation; a case is one stream plan; distinct_nontrivial counts distinct (streams, steps) shapes",
+                "single-call cross-check, commitment, empty chunks and empty messages also as (NULL, 0); oracle: BLAKE2b written from RFC 7693, operation by operation; a case is one stream plan; distinct_nontrivial counts distinct (streams, steps) shapes; "
+                "the streams-threads batch gives the states to 2-4 simulated caller threads under the race detector (independent states must not share mutable library state)",
         "assumptions": ["the RFC 7693 model was written independently for this work", "'for every message/outlen/key' is sampled only as far as these streams go; the simulation decides the chunking/interleaving/misuse half"],
         "expected_probes": ["early_finals", "zero_length_chunks", "interleaved_switches", "misuse_calls"],
         "confirm_on_shipped": False,
         "tiers": {
-            "quick": [B("streams", "plain", "small-a", 200000, 40)],
-            "thorough": [B("streams", "plain", "small-a", 4000000, 600)],
+            "quick": [B("streams", "plain", "small-a", 200000, 40), B("streams-threads", "tsan", "small-a", 30000, 15, mode="threads")],
+            "thorough": [B("streams", "plain", "small-a", 4000000, 600), B("streams-threads", "tsan", "small-a", 600000, 240, mode="threads")],
         },
     },
 }
